@@ -302,7 +302,13 @@ def run_one(seed, preset=None, tier="quick", want_case=False):
                   "type { __typename ofType { __typename } } } } directives { __typename args { __typename } } "
                   "types { __typename name enumValues(includeDeprecated: true) { __typename } inputFields { __typename } interfaces { __typename } "
                   "possibleTypes { __typename } } } }")
-        queries = [("meta_typenames", META_Q), ("schema_all", schema_query(True)), ("schema_nodep", schema_query(False)),
+        # the TYPE of every argument / input field / directive argument, described in full at every wrapping depth:
+        # reached this way a named type says the same things as its entry in __schema.types
+        ARG_TYPES_Q = ("query A { __schema { types { name fields(includeDeprecated: true) { name args { name type { ...R } } } inputFields { name type { ...R } } } "
+                       "directives { name args { name type { ...R } } } } } "
+                       "fragment R on __Type { ...L ofType { ...L ofType { ...L ofType { ...L ofType { ...L ofType { ...L } } } } } } "
+                       "fragment L on __Type { kind name enumValues(includeDeprecated: true) { name } inputFields { name } }")
+        queries = [("arg_types", ARG_TYPES_Q), ("meta_typenames", META_Q), ("schema_all", schema_query(True)), ("schema_nodep", schema_query(False)),
                    ("types_all", type_query(type_names, True)), ("types_nodep", type_query(type_names, False))]
 
         async def build(mode, name):
@@ -384,6 +390,40 @@ def run_one(seed, preset=None, tier="quick", want_case=False):
                     walk_meta(mt["data"]["__schema"], "__Schema")
                     if bad_meta:
                         viol.append(V("meta_typename", "[%s] __typename of introspection objects: expected / got %r" % (mode, bad_meta[:4])))
+            if not hidden_schema:
+                at = results[(mode, "arg_types")]
+                if at.get("errors") or not at.get("data"):
+                    viol.append(V("introspection_failed", "[%s] arg_types: %r" % (mode, repr(at.get("errors"))[:300])))
+                else:
+                    bad_ref = []
+
+                    def check_ref(where, node):
+                        while isinstance(node, dict) and node.get("ofType") is not None:
+                            node = node["ofType"]
+                        if not isinstance(node, dict) or node.get("name") not in schema.types:
+                            return
+                        td = schema.types[node["name"]]
+                        want_ev = [v.name for v in td.values] if td.kind == "ENUM" else None
+                        want_if = list(td.fields) if td.kind == "INPUT_OBJECT" else None
+                        got_ev = [v["name"] for v in node["enumValues"]] if node.get("enumValues") is not None else None
+                        got_if = [v["name"] for v in node["inputFields"]] if node.get("inputFields") is not None else None
+                        if node.get("kind") != td.kind or (got_ev is None) != (want_ev is None) or (got_if is None) != (want_if is None) \
+                                or sorted(got_ev or []) != sorted(want_ev or []) or sorted(got_if or []) != sorted(want_if or []):
+                            bad_ref.append((where, node.get("name"), node.get("kind"), got_ev, got_if))
+
+                    sch_ = at["data"]["__schema"]
+                    for t_ in sch_["types"]:
+                        for f_ in t_.get("fields") or []:
+                            for a_ in f_.get("args") or []:
+                                check_ref("%s.%s(%s:)" % (t_["name"], f_["name"], a_["name"]), a_["type"])
+                        for a_ in t_.get("inputFields") or []:
+                            check_ref("%s.%s" % (t_["name"], a_["name"]), a_["type"])
+                    for d_ in sch_["directives"]:
+                        for a_ in d_.get("args") or []:
+                            check_ref("@%s(%s:)" % (d_["name"], a_["name"]), a_["type"])
+                    if bad_ref:
+                        viol.append(V("argument_type_described_differently", "[%s] the type of an argument / input field, reached through "
+                                      "`type`, is not described like its entry in __schema.types: %r" % (mode, bad_ref[:3])))
             if hidden_schema:
                 for label, _ in queries:
                     resp = results[(mode, label)]
